@@ -4,6 +4,7 @@ import random
 import numpy as np
 
 import circgen
+import circrun
 import netrun
 import ssrun
 from common import standard_prologue
@@ -95,6 +96,40 @@ def check_case(case):
     return bad, m
 
 
+def integer_values(ctx, case):
+    """the value dictionaries are data: Python ints (C = 2, L = 3) must give the matrices of the same values given as floats"""
+    import copy
+    from CircuitCalculator.Circuit.circuit import transform_circuit
+    from CircuitCalculator.Network.NodalAnalysis.state_space_model import nodal_state_space_model
+    ic = copy.deepcopy(case)
+    k = 2
+    for c in ic['components']:
+        if c['kind'] == 'capacitor':
+            c['params']['C'] = float(k)
+            k += 1
+        if c['kind'] == 'inductance':
+            c['params']['L'] = float(k)
+            k += 1
+    if not ssrun.nondegenerate(ic):
+        return
+    try:
+        circuit, _ = circrun.build_impl(ic)
+        net = transform_circuit(circuit, w=0)
+        cf = {c.id: float(c.value['C']) for c in circuit.components if c.type == 'capacitor'}
+        lf = {c.id: float(c.value['L']) for c in circuit.components if c.type == 'inductance'}
+        a = nodal_state_space_model(network=net, c_values=cf, l_values=lf)
+        b = nodal_state_space_model(network=net, c_values={i: int(v) for i, v in cf.items()}, l_values={i: int(v) for i, v in lf.items()})
+        ctx.count('integer-valued-C-L:circuits')
+        for nm in 'ABCD':
+            x, y = np.asarray(getattr(a, nm), dtype=float), np.asarray(getattr(b, nm), dtype=float)
+            if x.shape != y.shape or np.max(np.abs(x - y), initial=0.0) > 1e-12 * max(1.0, np.max(np.abs(x), initial=0.0)):
+                ctx.violation('C10:matrices-depend-on-the-numeric-type-of-the-values', f'{nm} with C, L given as Python ints {y.tolist()} differs from the same '
+                              f'values given as floats {x.tolist()}', {'circuit': ic, 'matrix': nm})
+                return
+    except Exception as e:  # noqa: BLE001
+        ctx.violation(f'C10:raises-{type(e).__name__}', f'integer-valued C/L: {str(e)[:100]}', {'circuit': ic})
+
+
 def element_rows(ctx, case, rng):
     """every element on its OWN scale: in the output equations y = Cx + Du the current row of a resistor must be its voltage row divided by R
     (entry by entry, 1e-9 relative), whatever the other values in the circuit are — one resistor is swapped for a probe-style giga-ohm value
@@ -167,6 +202,8 @@ def examine(ctx, cases):
             ctx.nontriv([(c['kind'], c['id'], c['nodes'], sorted(c['params'].items())) for c in case['components']])
         if ctx.evaluations % 3 == 0:
             element_rows(ctx, case, random.Random(ctx.evaluations))
+        if ctx.evaluations % 5 == 0 and nst >= 1:
+            integer_values(ctx, case)
         ctx.sample({'circuit': case}, cap=3)
     try:
         import ssmodel
